@@ -53,6 +53,11 @@ def run(ctx):
         sh = ops.rand_shape(rnd, 2, 0.1)
         vals = {"acc": ops.tensor(rnd, d, sh, "small"), "step": ops.tensor(rnd, d, sh, "small")}
         cases.append({"id": f"E2-{i}", "kind": "propagate2", "values": vals, "lazy_sets": [[], ["step"], ["acc"], ["acc", "step"]]})
+    for i in range(20 * scale):
+        d = rnd.choice(["int64", "float64", "int32"])
+        sh = ops.rand_shape(rnd, 2, 0.1)
+        vals = {"a": ops.tensor(rnd, d, sh, "small"), "b": ops.tensor(rnd, d, sh, "small")}
+        cases.append({"id": f"E3-{i}", "kind": "propagate3", "values": vals, "lazy_sets": [[], ["a"], ["a", "b"]]})
     for i in range(60 * scale):
         r = rnd.randint(1, 2)
         sh = [rnd.choice([1, 2, 3]) for _ in range(r)]
@@ -90,6 +95,19 @@ def run(ctx):
                         ctx.finding({"func": "eager_propagate", "kind": "lazy-has-value", "lazy": key}, f"wrapped user function with placeholder arguments {key}: output {j} reports a value", {"case": c, "outcome": rr})
                 if not rr["inputs_still_lazy"]:
                     ctx.finding({"func": "eager_propagate", "kind": "placeholder-gained-value", "lazy": key}, f"a placeholder argument of the wrapped function gained a value", {"case": c, "outcome": rr})
+        elif c["kind"] == "propagate3":
+            for key, rr in o.items():
+                if key == "oracle":
+                    continue
+                lazy = [] if key == "-" else key.split(",")
+                for j in range(4):
+                    if ops.cmp_arrays(o["oracle"][j], rr["model"][j], 1e-9, 1e-12):
+                        ctx.finding({"func": "eager_propagate", "kind": "value", "lazy": key, "fn": "user_fn3"}, f"wrapped user function returning one array twice, placeholders {key}: exported output {j} differs from the expected composition", {"case": c, "outcome": rr, "oracle": o["oracle"]})
+                    v = rr["values"][j]
+                    if not lazy and (v is None or ops.cmp_arrays(o["oracle"][j], v, 1e-9, 1e-12)):
+                        ctx.finding({"func": "eager_propagate", "kind": "eager-value", "lazy": key, "fn": "user_fn3"}, f"wrapped user function returning one array twice, data-holding arguments: output {j} reports {str(v)[:80]}", {"case": c, "outcome": rr, "oracle": o["oracle"]})
+                    if lazy and v is not None:
+                        ctx.finding({"func": "eager_propagate", "kind": "lazy-has-value", "lazy": key, "fn": "user_fn3"}, f"wrapped user function with placeholder arguments {key}: output {j} reports a value", {"case": c, "outcome": rr})
         elif c["kind"] == "propagate2":
             names = ["library-only output", "directly applied operator", "mixed output", "argument updated in place"]
             for key, rr in o.items():
